@@ -653,7 +653,7 @@ def gen_int(ctx, T, v, d):
         kv = v - dlt
         if lo <= kv <= hi and (T.bits <= 64 or abs(kv) < (1 << 62)):
             k = ctx.fresh("K")
-            if r.chance(1, 2):
+            if kv >= 0 and r.chance(1, 2):      # `K : i32 : -5;` is not a constant for capy (unary minus is an operation)
                 ctx.prog.consts.append(f"{k} : {T.name} : {int_lit(T, kv)};")
                 ctx.feats.add("const_global")
             else:
